@@ -8,6 +8,7 @@
 package main
 
 import (
+	"encoding/json"
 	"fmt"
 	"os"
 	"sort"
@@ -150,7 +151,7 @@ func main() {
 		Level: "model_checking",
 		Rule: "9 programs with 2-4 colliding method bodies (mutual calls with locals, callee-first, diagnostics in several bodies, same new symbol in two bodies, method used in a constant, class methods, closures and throws, macros plus methods) x MethodCheckConcurrencyLimit in {1,2,3,100}; for each, every schedule of the parallel body-checking phase (concurrent.Foreach: goroutine starts, semaphore channel, diagnostics mutex, concurrent containers, plus a point before every statement of position/diagnostic/diagnostic.go, concurrent/slice.go and concurrent/map.go) with at most B preemptions (quick 1, thorough 2) is executed on the real checker+compiler, then the compiled program runs on the VM; " +
 			"oracle: the sorted diagnostic set and the program's stdout/result are identical to the sequential (limit 1, default schedule) outcome, no deadlock, no host panic; non-trivial = (program, limit) pairs with at least 20 schedules",
-		Assume:      []string{"only the body-checking phase branches; import parsing before it runs under a fixed deterministic schedule", "unsynchronised accesses between scheduling points (e.g. Method.Body) are invisible to the explorer; symbol interning is C26's subject"},
+		Assume:      []string{"only the body-checking phase branches; import parsing before it runs under a fixed deterministic schedule", "unsynchronised accesses between scheduling points are invisible to the explorer: the clause 'checking is free of data races' is covered by the supplementary free-running pass under Go's race detector (case racepass/programs: the same 9 programs x limits {2,3,100} x 10 (thorough 100) rounds on the uninstrumented checker); symbol interning is C26's subject"},
 		CaseTimeout: 15 * time.Minute,
 		Setup: func(c *engine.Ctx) {
 			elkrun.Init()
@@ -161,6 +162,24 @@ func main() {
 				bound = 2
 				caseBudget = 8 * time.Minute
 			}
+			// free-running companion pass under Go's race detector: the same programs checked with parallel body
+			// checking on the uninstrumented checker (see engine.RacePass)
+			c.Case("racepass/programs", func(r *engine.R) {
+				var l []map[string]any
+				for _, p := range progs {
+					for _, lim := range limits[1:] {
+						l = append(l, map[string]any{"name": fmt.Sprintf("%s/limit=%d", p.name, lim), "src": p.src, "limit": lim})
+					}
+				}
+				b, _ := json.Marshal(l)
+				f := "/verif/.work/c11-racepass.json"
+				os.WriteFile(f, b, 0o644)
+				rounds := "10"
+				if c.Thorough {
+					rounds = "100"
+				}
+				engine.RacePass(r, "parallel checking", 15*time.Minute, "checker", f, rounds)
+			})
 			for _, p := range progs {
 				if only := os.Getenv("C11_ONLY"); only != "" && only != p.name { // development aid
 					continue
